@@ -79,8 +79,8 @@ def run(run):
     C.build_driver()
     h, d = C.Harness(), C.Driver()
     rng = run.rng
-    nproj = 2 if run.tier == "quick" else 8
-    nq = 60 if run.tier == "quick" else 400
+    nproj = 2 if run.depth == "quick" else 8
+    nq = 60 if run.depth == "quick" else 400
     mism, stats = [], collections.Counter()
     names = ["m", "md", "md2", "get", "Name", "getName", "e", "n", "a", "b", "x", "x1", "p", "in1", "_", "_m", "d", "N"]
     try:
@@ -88,7 +88,7 @@ def run(run):
             proj = E.small_project(rng, h, nfiles=2)
             try:
                 kinds = [k for k in QG.KINDS_DEFAULT if proj.by_kind.get(k)]
-                for v in c01.predicate_cases(rng, proj, rng.choice(kinds), alias=rng.choice(["x", "md", "m2"]), limit=(100 if run.tier == "quick" else None)):
+                for v in c01.predicate_cases(rng, proj, rng.choice(kinds), alias=rng.choice(["x", "md", "m2"]), limit=(100 if run.depth == "quick" else None)):
                     text = QG.plain(v)
                     res = E.engine_case(proj, d, text, v)
                     run.count(("pred-shape", text))
